@@ -13,6 +13,12 @@ FIELDS = {"_nmeshcellsX": N, "_nmeshcellsY": N, "_nbunches": B, "_nmeshcells": N
 REFS = {"nx": "_nmeshcellsX", "ny": "_nmeshcellsY", "nb": "_nbunches", "nxy": "_nmeshcells", "nxyb": "_totalmeshcells"}
 
 
+def _rel(path):
+    import os
+    from ..compdb import REPO
+    return os.path.relpath(path, REPO)
+
+
 def subs_map():
     m = {}
     for r, f in REFS.items():
@@ -62,7 +68,7 @@ def lemmas(chk, prog, rule="S"):
         g = prog.globals.get("vfps::PhaseSpace::" + r)
         A.require(g is not None and "init" in g, "PhaseSpace::%s definition not found" % r)
         tgt = A.declref(g["init"])
-        chk.check(tgt is not None and tgt["name"] == f, rule, "%s:%d" % (g["file"].replace("/repo/", ""), g["line"]),
+        chk.check(tgt is not None and tgt["name"] == f, rule, "%s:%d" % (_rel(g["file"]), g["line"]),
                   "PhaseSpace::%s refers to %s" % (r, f), "PhaseSpace::%s:ref" % r); n += 1
     # nobody else writes the size fields
     writers = set()
